@@ -761,3 +761,69 @@ func DirectedCommitSplit(mons ...vnet.Monitor) *Built {
 	c.Run(nil)
 	return &Built{C: c, Spec: Spec{Profile: cfg.Profile, Idx: -1, Seed: cfg.Seed}}
 }
+
+// DirectedPrimaryWaitsAfterRecovery: the recorded C09 finding of DESIGN 5.21. Seven validators, the
+// primary of view 0 is silent from the start, everything else is honest and the network is
+// synchronous. The five other backups collect the change view requests and enter view 1; the
+// primary of view 1 learns about the view change from a recovery message instead (its copies of the
+// requests are a little late - still long before any timer expires). A primary that enters a view
+// while it processes a recovery message arms the same doubled timeout as a backup instead of
+// proposing at once, so the backups, who entered the view earlier, time out first, and as they have
+// heard from each other in view 1 they ask for view 2 straight away: view 1 is wasted although its
+// primary is alive, and the height is decided in view 2 with one silent validator.
+func DirectedPrimaryWaitsAfterRecovery(mons ...vnet.Monitor) *Built {
+	const n = 7
+	cfg := vnet.Config{Seed: 995, Profile: "directed-primary-waits-after-recovery", N: n, BaseHeight: 6, Heights: 1, AMEV: -1, TPB: time.Second,
+		Epoch: time.Date(2031, 5, 1, 0, 0, 0, 0, time.UTC).UnixNano(), MaxSteps: 20000, MaxClock: 600 * time.Second}
+	cfg.GenesisTs = uint64(cfg.Epoch) - uint64(cfg.TPB)
+	cfg.K = vnet.Knobs{Sync: true, SlowNode: -1, ResetDelayNode: -1}
+	cfg.Roles = make([]vnet.Role, n)
+	cfg.Roles[0] = vnet.Silent // height 7: validator 0 is the primary of view 0, validator 6 of view 1
+	c := vnet.NewCluster(cfg, mons...)
+	_ = cfg.BaseHeight
+	a := c.Nodes[6]
+	isB := func(id int) bool { return id >= 1 && id <= 5 }
+	for id := 1; id < n; id++ {
+		c.Nodes[id].Start()
+	}
+	fireAll := func() {
+		var dl int64 = -1
+		for id := 1; id < n; id++ {
+			if d, p := c.Nodes[id].Timer.Deadline(); p && (dl < 0 || d < dl) {
+				dl = d
+			}
+		}
+		if dl > c.Clock {
+			c.Clock = dl
+		}
+		for id := 1; id < n; id++ {
+			if d, p := c.Nodes[id].Timer.Deadline(); p && d <= c.Clock {
+				c.Nodes[id].FireTimer()
+			}
+		}
+	}
+	fireAll() // nobody heard yet: recovery requests
+	for i := 0; i < 3; i++ {
+		deliverWhere(c, func(e *vnet.Envelope) bool { return true })
+	}
+	fireAll() // change view requests
+	// the requests reach the five backups at once, the next primary a little later
+	deliverWhere(c, func(e *vnet.Envelope) bool { return e.P.T == dbft.ChangeViewType && isB(e.To) })
+	// duplicates of the (now old) requests reach the backups once more; those in the responder window answer with
+	// view-1 recovery messages, which lets the backups hear each other in view 1
+	for id := 1; id <= 5; id++ {
+		for _, p := range c.GenList {
+			if p.T == dbft.ChangeViewType && p.Hgt == cfg.BaseHeight+1 && int(p.Idx) != id {
+				c.Nodes[id].Receive(p)
+			}
+		}
+	}
+	for i := 0; i < 3; i++ {
+		deliverWhere(c, func(e *vnet.Envelope) bool { return isB(e.To) })
+	}
+	c.Clock += int64(cfg.TPB) / 10
+	deliverWhere(c, func(e *vnet.Envelope) bool { return e.To == a.ID && e.P.T == dbft.RecoveryMessageType && e.P.View == 1 })
+	c.NoteFault()
+	c.Run(nil)
+	return &Built{C: c, Spec: Spec{Profile: cfg.Profile, Idx: -1, Seed: cfg.Seed}}
+}
